@@ -373,26 +373,56 @@ def gen_scripts(ops, seed, count):
 
 ENUM_HEADERS = {
     "map": ["op=map a=2 b=1 env=std subs=1"],
-    "filter": ["op=filter m=2 r=0 env=std subs=1"],
+    "filter": ["op=filter m=2 r=0 env=std subs=1", "op=filter m=2 r=1 env=std subs=1"],
     "scan": ["op=scan k=0 seed=1 env=std subs=1"],
-    "take": ["op=take n=1 env=std subs=1", "op=take n=2 env=std subs=1"],
-    "skip": ["op=skip n=1 env=std subs=1"],
-    "from_iter": ["op=from_iter xs=4,5 inf=- env=std subs=1"],
+    "take": ["op=take n=1 env=std subs=1", "op=take n=2 env=std subs=1", "op=take n=3 env=std subs=1"],
+    "skip": ["op=skip n=0 env=std subs=1", "op=skip n=1 env=std subs=1", "op=skip n=2 env=std subs=1"],
+    "from_iter": ["op=from_iter xs=4,5 inf=- env=std subs=1", "op=from_iter xs=- inf=- env=std subs=1",
+                  "op=from_iter xs=4 inf=7 env=std subs=1"],
     "for_each": ["op=for_each env=std subs=1"],
-    "merge": ["op=merge n=2 env=std subs=1"],
-    "concat": ["op=concat n=2 env=std subs=1"],
-    "combine": ["op=combine n=2 env=std subs=1"],
+    "merge": ["op=merge n=2 env=std subs=1", "op=merge n=1 env=std subs=1", "op=merge n=3 env=std subs=1"],
+    "concat": ["op=concat n=2 env=std subs=1", "op=concat n=1 env=std subs=1", "op=concat n=3 env=std subs=1",
+               "op=concat n=0 env=std subs=1"],
+    "combine": ["op=combine n=2 env=std subs=1", "op=combine n=1 env=std subs=1", "op=combine n=3 env=std subs=1"],
     "flatten": ["op=flatten env=std subs=1"],
-    "share": ["op=share sinks=2 env=std subs=1"],
+    "share": ["op=share sinks=2 env=std subs=1", "op=share sinks=3 env=std subs=1"],
     "interval": ["op=interval env=std subs=1"],
+}
+# the pull regime (C14): the same components under pullable upstreams / one Pull per message
+ENUM_HEADERS_PULL = {
+    "map": ["op=map a=2 b=1 env=pull subs=1"],
+    "filter": ["op=filter m=2 r=0 env=pull subs=1"],
+    "scan": ["op=scan k=0 seed=1 env=pull subs=1"],
+    "take": ["op=take n=1 env=pull subs=1", "op=take n=2 env=pull subs=1"],
+    "skip": ["op=skip n=1 env=pull subs=1"],
+    "from_iter": ["op=from_iter xs=4,5 inf=- env=pull subs=1"],
+    "concat": ["op=concat n=2 env=pull subs=1", "op=concat n=3 env=pull subs=1"],
+    "flatten": ["op=flatten env=pull subs=1"],
 }
 
 
-def enum_scripts(ops, depth):
+def changed_ops():
+    """components whose source differs from the pinned tree (coq/SOURCE_FINGERPRINTS.json): they get a deeper
+    search.  A change of core.rs / utils / lib.rs concerns every component.  Never an alarm by itself."""
+    import fingerprint
+    ch = fingerprint.changed_files(REPO)
+    if ch is None:
+        return set(), []
+    ops = set()
+    for f in ch:
+        base = os.path.basename(f)[:-3]
+        if base in ALL_SRC + ["for_each"]:
+            ops.add(base)
+        elif base != "verif_hooks":
+            ops.update(ALL_SRC + ["for_each"])
+    return ops, ch
+
+
+def enum_scripts(ops, depth, deeper=(), pull=False):
     out = []
     for op in ops:
-        for h in ENUM_HEADERS.get(op, []):
-            r = sh([DRIVER, "enum", str(depth)] + h.split(), timeout=1800)
+        for h in (ENUM_HEADERS_PULL if pull else ENUM_HEADERS).get(op, []):
+            r = sh([DRIVER, "enum", str(depth + (2 if op in deeper else 0))] + h.split(), timeout=1800)
             if r.returncode != 0:
                 raise Fail("enumeration failed: " + r.stderr[-2000:])
             out += [l for l in r.stdout.splitlines() if l.strip()]
@@ -632,12 +662,19 @@ def seq_check(prop, tier, seed, t0, spec=None):
     build(spec.get("builds", (variant,)))
     audit = coq_audit(spec.get("thms", prop))
     n_rand = spec.get("n_rand", 16000 if tier == "quick" else 300000)
-    depth = spec.get("depth", 6 if tier == "quick" else 8)
+    depth = spec.get("depth", 8 if tier == "quick" else 11)
     scripts = corpus_scripts(ops)
     n_corpus = len(scripts)
-    en = enum_scripts(ops, depth)
+    hot, changed = changed_ops()
+    hot = sorted(o for o in hot if o in ops)
+    en = enum_scripts(ops, depth, hot)
+    if "env=pull" in spec.get("gen_extra", []):
+        en += enum_scripts(ops, depth, hot, pull=True)
     scripts += en
     scripts += gen_scripts(list(spec.get("gen_ops", ops)) + spec.get("gen_extra", []), seed, n_rand)
+    if hot:
+        # the source of these components differs from the pinned tree: look harder exactly there
+        scripts += gen_scripts(hot + spec.get("gen_extra", []), seed + 11, n_rand * (2 if tier == "quick" else 1))
     # a stream with "late" peer moves (talkbacks/handlers used after the protocol is over): model and crate
     # must still agree; no monitor verdicts on these (the environment is not conformant)
     scripts += gen_scripts(list(spec.get("gen_ops", ops)) + ["late=1"], seed + 1, n_rand // 4)
@@ -761,6 +798,8 @@ def seq_check(prop, tier, seed, t0, spec=None):
         correspondence_mismatches=len(mismatches),
         scripts_per_component=hist_ops,
         closed_compositions_run=n_tree,
+        source_files_differing_from_pinned_tree=changed,
+        components_searched_deeper=hot,
         known_findings_seen=sorted(known_hits.keys()),
         **extra_cov,
         samples=[dict(script=s, crate_trace=r) for s, r in list(zip(scripts, real))[n_corpus:n_corpus + 2] +
